@@ -1,7 +1,7 @@
 (* Corollaries: the signature-text theorems of C09 / C10 / C18, restated for the parsers as TRANSLATED from pyp0f's source on this
    run (Gen/GeneratedSig.v).  Hand-written; compiled after Gen/GenSigP.v. *)
 From Coq Require Import String ZArith NArith List Bool Lia.
-From PV Require Import Model.Prelude Model.Bits Model.Sig Model.Text Model.SigParse Model.Dump Proofs.DbParseP Proofs.DumpP Proofs.SigTextP
+From PV Require Import Model.Prelude Model.Bits Model.Sig Model.Matcher Model.Text Model.SigParse Model.Dump Spec.C01 Proofs.DbParseP Proofs.DumpP Proofs.SigTextP
   Gen.GeneratedSig Gen.GenSigP.
 Import ListNotations.
 Local Open Scope Z_scope.
